@@ -267,6 +267,63 @@ def run(prog, rep, tier='quick', config='default'):
             else:
                 rep.ok('R11e', 'to_csvtx-carries-every-field|%s' % adt, fn=to_csvtx.name, detail='all %d fields of %s are read' % (len(fl), adt))
 
+    # ------------------------------------------------------------------ R11h: the commission's own currency is exported whenever present
+    TRANSPORT = {'clone', 'as_ref', 'map', 'deref', 'borrow', 'to_owned', 'as_deref', 'cloned', 'copied', 'to_string', 'into', 'from',
+                 'unwrap', 'expect', 'branch', 'from_output', 'call_once', 'call_mut', 'call'}
+    if to_csvtx is not None:
+        grp2 = [g for g in prog.callees_closure([to_csvtx]).values() if g.name.startswith('portfolio::model::tx::')]
+        grp2 += [h for g in list(grp2) for h in prog.closures_of(g) if h not in grp2]
+        n_h = 0
+        for g in grp2:
+            stores = []
+            for i, b in g.blocks.items():
+                for st in b['stmts']:
+                    if ('portfolio::model::tx::CsvTx', 'commission_currency') in set(mir.place_fields(st['dst'])):
+                        stores.append((i, st, list(st['r'].get('ops', [])) + ([{'k': 'copy', 'pl': st['r']['pl']}] if 'pl' in st['r'] else []), g.where(st)))
+                t = b['term']
+                if t and t['t'] == 'call' and ('portfolio::model::tx::CsvTx', 'commission_currency') in set(mir.place_fields(t['dst'])):
+                    stores.append((i, t, list(t['args']), g.where(t)))
+            for (bb, node, ops, where) in stores:
+                src_field = False
+                bad = []
+                for o in ops:
+                    if not is_place(o):
+                        continue
+                    org = mir.provenance(g, o, follow_all_call_args=True)
+                    if any(f == 'separate_commission_currency' for (_, f) in org.fields):
+                        src_field = True
+                    bad += [c for c in org.calls if c.short not in TRANSPORT]
+                if node.get('t') == 'call':
+                    cs = g.call_at[bb]
+                    if cs.short not in TRANSPORT:
+                        bad.append(cs)
+                    src_field = src_field or any(
+                        f == 'separate_commission_currency'
+                        for a in cs.args if is_place(a) for (_, f) in mir.provenance(g, a, follow_all_call_args=True).fields)
+                if not src_field:
+                    continue   # e.g. the `None` initialiser
+                n_h += 1
+                conds = []
+                for (sbb, discr, vals, neg) in g.conditions_at(bb):
+                    d = mir.provenance(g, discr, follow_all_call_args=True)
+                    if not any(f in ('separate_commission_currency',) for (_, f) in d.fields):
+                        continue
+                    conds += [c for c in d.calls if c.short not in TRANSPORT]
+                k = '%s|commission-currency-exported-whenever-present#%d' % (g.name, n_h)
+                if bad or conds:
+                    c0 = (bad or conds)[0]
+                    rep.violation('R11h', k, where=where, fn=g.name,
+                                  detail='CsvTx.commission_currency is derived from the transaction\'s separate commission currency through %s (%s): '
+                                         'a currency that is present can be left out of the exported row, and the row is then read back with the '
+                                         'commission in the trade\'s currency' % (short(c0.callee), 'a condition' if not bad else 'a filtering step'))
+                else:
+                    rep.ok('R11h', k, where=where, fn=g.name,
+                           detail='CsvTx.commission_currency is Some exactly when the transaction has a separate commission currency '
+                                  '(only the Option discriminant decides; the value passes through clone/map)')
+        if n_h == 0:
+            rep.violation('R11h', 'anchor-lost:commission-currency-export', fn=to_csvtx.name,
+                          detail='anchor lost: no store to CsvTx.commission_currency fed by separate_commission_currency found under Tx::to_csvtx')
+
     # ------------------------------------------------------------------ R11g: the writer formats values losslessly
     from props import c06
     grp = prog.callees_closure([writer])
